@@ -116,8 +116,21 @@ def run_jobs(prop, jobs, nworkers, job_timeout):
                     n = counter[0]
                 w = workers[d] = Worker(prop, d, n)
             results[i] = w.run(job, job.get("timeout", job_timeout))
-            if "fatal" in results[i] and w.alive:
-                w.kill()
+            if "fatal" in results[i]:
+                if w.alive:
+                    w.kill()
+                if results[i]["fatal"].startswith("worker died"):
+                    # retry once on a fresh worker (a died worker says nothing about the job)
+                    with lock:
+                        counter[0] += 1
+                        n = counter[0]
+                    w = workers[d] = Worker(prop, d, n)
+                    first = results[i]["fatal"]
+                    results[i] = w.run(job, job.get("timeout", job_timeout))
+                    if "fatal" in results[i]:
+                        results[i]["fatal"] += " | first attempt: " + first[:300]
+                        if w.alive:
+                            w.kill()
         for w in workers.values():
             w.close()
 
